@@ -128,7 +128,7 @@ func (api *API) mapDecodeBasedOnType(ctx context.Context, mapVal any, value refl
 				return nil
 			}
 
-			return api.mapDecodeSlice(ctx, mapVal, sliceValue, sliceValueType, ts, opts)
+			return api.mapDecodeArray(ctx, mapVal, value.Elem(), sliceValueType, ts, opts)
 		}
 
 	case reflect.Struct:
@@ -155,7 +155,7 @@ func (api *API) mapDecodeBasedOnType(ctx context.Context, mapVal any, value refl
 			return nil
 		}
 
-		return api.mapDecodeSlice(ctx, mapVal, sliceValue, sliceValueType, ts, opts)
+		return api.mapDecodeArray(ctx, mapVal, value, sliceValueType, ts, opts)
 	case reflect.Interface:
 		return api.mapDecodeInterface(ctx, mapVal, value, valueType, ts, opts)
 	case reflect.String:
@@ -413,6 +413,22 @@ func (api *API) mapDecodeStructFields(
 			return ierrors.Wrapf(err, "failed to deserialize struct field %s", sField.name)
 		}
 	}
+
+	return nil
+}
+
+// mapDecodeArray decodes an array of non-byte elements like a slice: into a fresh addressable slice
+// whose elements are copied back into the array.
+func (api *API) mapDecodeArray(ctx context.Context, mapVal any, arrayValue reflect.Value,
+	sliceValueType reflect.Type, ts TypeSettings, opts *options) error {
+	sliceValue := reflect.New(sliceValueType).Elem()
+	if err := api.mapDecodeSlice(ctx, mapVal, sliceValue, sliceValueType, ts, opts); err != nil {
+		return err
+	}
+	if sliceValue.Len() != arrayValue.Len() {
+		return ierrors.Errorf("can't map decode array %s: expected %d elements, got %d", arrayValue.Type(), arrayValue.Len(), sliceValue.Len())
+	}
+	fillArrayFromSlice(arrayValue, sliceValue)
 
 	return nil
 }
